@@ -34,7 +34,22 @@ EXPLANATION = (
     "updates the remaining _size before it does; (5) every "
     "request extracted for a finished segment is handed to DownloadNode._deliver, which fires its Deferred unless "
     "cancelled, the delivery callback is an addBoth, and _extract_requests returns the requests whose segment number "
-    "equals its argument and keeps exactly the complement; (7) SegmentFetcher._do_loop returns without a report only on "
+    "equals its argument and keeps exactly the complement; (8) no status call can abort a delivery loop: the three loops over "
+    "_extract_requests(..) (fetch_failed, failure and success branch of the process_blocks callback) run after the requests "
+    "have left _segment_requests, so an exception in the body strands the requests not yet reached and skips "
+    "_start_new_segment(); for every method the body calls on the request's status event (the class returned by "
+    "add_segment_request, the event traced through the queue tuple, _extract_requests' comprehension and the loop target) "
+    "each abort (failing assert / raise, also in a self.helper()) that depends on the event's own state must be ruled out by "
+    "what is known about that state: the values add_segment_request creates it with, what get_segment calls on it before "
+    "queueing, what the loop body called on it before (a method establishes the comparisons that hold on all its normal "
+    "exits) - checked once for an event nobody activated (every request but the head of the queue) and once for the one "
+    "_start_new_segment activated; the same for the call _start_new_segment makes between installing and waking a fetcher; "
+    "(9) ShareFinder._request_retired cannot raise before the request has left pending_requests: a keyed access with the "
+    "request as key (x[req], del x[req], x.pop(req), x.remove(req), attribute of x.get(req) / x.pop(req, None), `assert req in "
+    "x`, a raise behind `req not in x`) to a table that another ShareFinder method removes entries from or that send_request "
+    "does not always enter the token in (overdue_timers: overdue() and stop(); overdue_requests) must sit behind `req in x`, "
+    "a None/truth test of the value, or a handler that catches the error, or the exception path itself (finally / handler) "
+    "must still pass the discard; (7) SegmentFetcher._do_loop returns without a report only on "
     "a path that shows something outstanding: k <= blocks+active and blocks < k (an active request), or blocks+active "
     "< k <= blocks+active+overdue (an overdue request), or `not _no_more_shares` after asking for more shares, or a "
     "stopped fetcher; every turn of its while loop sent a request or raised the per-server limit that held shares "
@@ -51,8 +66,12 @@ EXPLANATION = (
     "completes its block), by how much _got_segment reduces _size, which segment number _start_new_segment / "
     "_fetch_next choose, the per-server-limit comparison of _find_and_use_share, None-dereferences and other "
     "exceptions raised by calls the CFG does not model as raising (e.g. a deleted local that turns into a NameError "
-    "before the reset).")
-TECHNIQUE = "static analysis: CFG x typestate monitors (reset/restart, stop/report; completion exits excused on identity-test edges against pre-gap captures of _active_segment), must-pass path queries, per-path edge-fact sets (what a waiting fetcher knows), normal-form comparison of queue filters, Deferred chain order"
+    "before the reset); for (8): aborts of a status method that depend on its arguments only, exceptions that are not an "
+    "assert / raise (arithmetic on a None field), calls in the loop body on anything but the status event (now(), "
+    "eventually, len) and DownloadStatus.add_misc_event between the loop and _start_new_segment(); for (9): an exception "
+    "raised inside a helper _request_retired calls, and one raised after the discard (the answer is then lost as an error "
+    "but the finder goes on - a wrong verdict, not a hang).")
+TECHNIQUE = "static analysis: CFG x typestate monitors (reset/restart, stop/report; completion exits excused on identity-test edges against pre-gap captures of _active_segment), must-pass path queries, per-path edge-fact sets (what a waiting fetcher knows), normal-form comparison of queue filters, Deferred chain order, per-method abort/establish summaries of the status-event class applied along the delivery loops (abstract object state = set of comparisons), exception-path exploration of the finder's retire step with key-presence guards"
 
 NODE = "immutable.downloader.node:DownloadNode"
 FETCH = "immutable.downloader.fetcher:SegmentFetcher"
@@ -274,6 +293,170 @@ def _reads(name):
         return any(isinstance(x, ast.Name) and x.id == name and isinstance(x.ctx, ast.Load)
                    for e in node_exprs(n) for x in ast.walk(e))
     return p
+
+
+# ---- what a status-event method demands of / leaves in the object it is called on (C46.8) --------------
+_NEG2 = dict(_NEG, truth="false", false="truth")
+_NEG2["in"], _NEG2["not in"] = "not in", "in"
+_MUTATORS = {"update", "clear", "pop", "popitem", "setdefault", "append", "extend", "remove", "discard", "add", "insert"}
+
+
+def _on_self(s):
+    return bool(s) and re.search(r"\bself\.", s) is not None
+
+
+def _state_fact(f):
+    return bool(f) and (_on_self(f[1]) or _on_self(f[2]))
+
+
+def _refuters(g):
+    """Facts each of which implies that `g` does not hold."""
+    op, l, rr = g
+    out = set()
+    if op in _NEG2:
+        out.add((_NEG2[op], l, rr))
+    if g[:2] == ("is", "None"):
+        out.add(("truth", rr, None))
+    if op == "truth":
+        out.add(("is", "None", l))
+    return out
+
+
+def _forget(st, prefixes):
+    if not prefixes:
+        return st
+    def hit(s):
+        return bool(s) and any(s == p or s.startswith(p + "[") or s.startswith(p + ".") for p in prefixes)
+    return frozenset(f for f in st if not (hit(f[1]) or hit(f[2])))
+
+
+def _not_none_value(fn, v):
+    return (isinstance(v, ast.Constant) and v.value is not None) or isinstance(v, (ast.Call, ast.Dict, ast.List, ast.Tuple, ast.Set,
+                                                                                  ast.JoinedStr, ast.BinOp)) \
+        or (isinstance(v, ast.Name) and (v.id in fn.params))
+
+
+class _Summary:
+    def __init__(self):
+        self.aborts = []      # (facts on the way to the abort, FuncInfo, node that aborts)
+        self.post = frozenset()
+        self.kills = set()
+
+
+def _apply(st, s):
+    return _forget(st, s.kills) | s.post
+
+
+def _event_summary(cls, fn, cache, depth=0):
+    """Abstract effect of one method of a status-event class on the object's own state: the paths on which it aborts
+    (assert / raise) with the comparisons that lead there, the comparisons on `self.` state that hold whenever it
+    returns normally, and the state it overwrites."""
+    if fn.qual in cache:
+        return cache[fn.qual]
+    out = cache[fn.qual] = _Summary()
+    cfg = fn.cfg()
+    fx = FlowNorm(fn)
+
+    def effects(n, st, aborts=None):
+        a = n.ast
+        for c in node_calls(n):
+            nm = call_name(c)
+            m = re.match(r"^self\.(\w+)$", nm or "")
+            callee = cls.lookup(m.group(1)) if m else None
+            if callee is not None and callee is not fn and depth < 2:
+                sub = _event_summary(cls, callee, cache, depth + 1)
+                if aborts is not None:
+                    for (S, f2, n2) in sub.aborts:
+                        aborts.append((st | S, f2, n2))
+                out.kills |= sub.kills
+                st = _apply(st, sub)
+            elif isinstance(c.func, ast.Attribute) and c.func.attr in _MUTATORS:
+                p = attr_path(c.func.value)
+                if p and p.startswith("self."):
+                    out.kills.add(p)
+                    st = _forget(st, {p})
+        if n.kind == "stmt" and isinstance(a, (ast.Assign, ast.AugAssign, ast.AnnAssign, ast.Delete)):
+            targets = list(a.targets) if isinstance(a, (ast.Assign, ast.Delete)) else [a.target]
+            flat = []
+            while targets:
+                t = targets.pop()
+                if isinstance(t, (ast.Tuple, ast.List)):
+                    targets.extend(t.elts)
+                elif isinstance(t, ast.Starred):
+                    targets.append(t.value)
+                else:
+                    flat.append(t)
+            for t in flat:
+                if not isinstance(t, (ast.Attribute, ast.Subscript)):
+                    continue
+                whole = isinstance(t, ast.Subscript) and not isinstance(t.slice, ast.Constant)
+                try:
+                    l = fx.norm(n, t.value if whole else t)
+                except Exception:
+                    l = None
+                if not _on_self(l):
+                    continue
+                out.kills.add(l)
+                st = _forget(st, {l})
+                if isinstance(a, ast.Assign) and len(flat) == 1 and not whole:
+                    if _is_none(a.value):
+                        st = st | {("is", "None", l)}
+                    elif _not_none_value(fn, a.value):
+                        st = st | {("is not", "None", l)}
+        return st
+
+    def transfer(n, lab, nxt, st):
+        if n.kind in ("entry", "exit", "raise"):
+            return st
+        if lab == "exc" and not is_raise(n):
+            return None
+        st = effects(n, st)
+        f = fx.edge_fact(n, lab)
+        if f:
+            if _state_fact(f) and (_refuters(f) & st):
+                return None          # contradicts what the path already knows
+            st = st | {f}
+            if f[0] == "truth":
+                st = st | {("is not", "None", f[1])}
+            elif f[:2] == ("is", "None"):
+                st = st | {("false", f[2], None)}
+        return st
+    visited, parent = explore(cfg, frozenset(), transfer)
+    out.states = len(visited)
+    posts = None
+    for (nid, st) in sorted(visited, key=lambda x: (x[0], sorted(map(str, x[1])))):
+        n = cfg.nodes[nid]
+        if nid == cfg.exit.id:
+            keep = frozenset(f for f in st if _state_fact(f))
+            posts = keep if posts is None else (posts & keep)
+        elif nid == cfg.raise_exit.id:
+            p = parent.get((nid, st))
+            out.aborts.append((st, fn, cfg.nodes[p[0][0]] if p else n))
+        elif n.kind not in ("entry", "exit", "raise"):
+            effects(n, st, out.aborts)
+    out.post = posts or frozenset()
+    return out
+
+
+def _unsafe_aborts(summary, est):
+    """The aborts of a method that nothing known about the object (`est`) rules out.  An abort that depends on
+    arguments only is not decided (skipped); one behind no test at all always happens."""
+    bad = []
+    for (S, f2, n2) in summary.aborts:
+        own = [g for g in S if _state_fact(g)]
+        if S and not own:
+            continue
+        if any(_refuters(g) & est for g in own):
+            continue
+        bad.append((own, f2, n2))
+    return bad
+
+
+def _fact_text(g):
+    op, l, rr = g
+    if op in ("truth", "false"):
+        return ("%s" if op == "truth" else "not %s") % l
+    return "%s %s %s" % (rr, op, l)
 
 
 # --------------------------------------------------------------------- rules
@@ -900,6 +1083,411 @@ def run(ctx: Context):
         _must_pass(r, dn, lambda n: any(
             call_tail(c) in ("callback", "errback") and attr_path(c.func.value) == ps[0] for c in node_calls(n)),
             "firing the request's Deferred", _fact_excuse(dn, lambda op, l, rr: op == "false" and l == ps[1] + ".active"))
+
+    # -- 8. no status call can abort a delivery loop ---------------------------
+    # _extract_requests has already taken the segment's requests off the queue when the loop runs: an exception
+    # in the loop body leaves the requests not yet reached without anybody to fire them and skips
+    # _start_new_segment().  The status event of a request is in the state the node put it in: the one at the
+    # head of the queue was activated by _start_new_segment, every other one is as add_segment_request made it.
+    with ctx.rule("C46.8", "R1/E3", "a status-event method called on every request of a delivery loop cannot abort for "
+                  "the state such a request's event is in (fresh from add_segment_request, or activated by "
+                  "_start_new_segment) unless the loop body itself established what the method asserts", expected=5) as r:
+        gs = idx.func(NODE + ".get_segment")
+        er = idx.func(NODE + "._extract_requests")
+        sn = idx.func(NODE + "._start_new_segment")
+        ff = idx.func(NODE + ".fetch_failed")
+        # where the status event sits in a queue entry
+        made = [n for n in gs.cfg().nodes if n.kind == "stmt" and isinstance(n.ast, ast.Assign)
+                and isinstance(n.ast.value, ast.Call) and call_tail(n.ast.value) == "add_segment_request"
+                and len(n.ast.targets) == 1 and isinstance(n.ast.targets[0], ast.Name)]
+        if len(made) != 1:
+            raise AnchorVanished("get_segment no longer binds the result of add_segment_request(..) to a local")
+        evname = made[0].ast.targets[0].id
+        qpos = None
+        for c in calls_in_func(gs, "append"):
+            if call_name(c) == "self._segment_requests.append" and c.args and isinstance(c.args[0], ast.Tuple):
+                for i, e in enumerate(c.args[0].elts):
+                    if isinstance(e, ast.Name) and e.id == evname:
+                        qpos = i
+        if qpos is None:
+            raise AnchorVanished("get_segment no longer queues the status event in the tuple appended to _segment_requests")
+        r.site(gs, made[0].ast, "status event is field %d of a queue entry" % qpos)
+        # its class, and the state add_segment_request creates it in
+        makers = [f for f in idx.by_name.get("add_segment_request", []) if f.cls is not None]
+        ev_cls, init = None, frozenset()
+        for mk in makers:
+            mcfg = mk.cfg()
+            mrd = C.reaching_defs(mcfg)
+            for n in mcfg.find(is_return):
+                v = _value_of(mcfg, mrd, n, n.ast.value) if n.ast.value is not None else None
+                ci = idx.resolve_expr(mk.module, v.func) if isinstance(v, ast.Call) else None
+                if not isinstance(ci, ClassInfo):
+                    raise AnalysisError("%s returns something the rule cannot resolve to a class: %s" % (short(mk), src(mk, n.ast)))
+                if ev_cls is not None and ci is not ev_cls:
+                    raise AnalysisError("add_segment_request returns events of several classes")
+                ev_cls = ci
+                ctor = ci.lookup("__init__")
+                if ctor is None:
+                    continue
+                cps = first_positional_params(ctor)
+                for x in func_own_nodes(ctor):
+                    if isinstance(x, ast.Assign) and len(x.targets) == 1 and isinstance(x.value, ast.Name) and x.value.id in cps \
+                            and (attr_path(x.targets[0]) or "").startswith("self."):
+                        a = arg(v, cps.index(x.value.id), x.value.id)
+                        a = _value_of(mcfg, mrd, n, a) if a is not None else None
+                        base = attr_path(x.targets[0])
+                        if a is not None and (_not_none_value(mk, a) or (isinstance(a, ast.Name) and a.id == "self")):
+                            init |= {("is not", "None", base)}
+                        if isinstance(a, ast.Dict):
+                            for k, val in zip(a.keys, a.values):
+                                if isinstance(k, ast.Constant) and isinstance(val, ast.Constant):
+                                    l = norm_src("%s[%r]" % (base, k.value))
+                                    init |= {("is", "None", l) if val.value is None else ("is not", "None", l)}
+        if ev_cls is None:
+            raise AnchorVanished("no add_segment_request method that returns a status event")
+        cache = {}
+
+        def summ(name, fn, at):
+            m = ev_cls.lookup(name)
+            if m is None:
+                raise AnalysisError("%s calls %s() on the segment's status event, which %s does not define"
+                                    % (short(fn), name, ev_cls.name))
+            s = _event_summary(ev_cls, m, cache)
+            return m, s
+
+        def calls_on(n, var):
+            return [c for c in node_calls(n) if isinstance(c.func, ast.Attribute) and isinstance(c.func.value, ast.Name)
+                    and c.func.value.id == var]
+        # every request: what get_segment does to the event before it queues it
+        fresh = frozenset(init)
+        gcfg = gs.cfg()
+        queued = lambda n: any(call_name(c) == "self._segment_requests.append" for c in node_calls(n))
+        for n in gcfg.nodes:
+            if n.kind in ("entry", "exit", "raise") or not calls_on(n, evname):
+                continue
+            if find_path_avoiding(gcfg, queued, gate_node=lambda m, _n=n: m is _n):
+                continue
+            for c in calls_on(n, evname):
+                fresh = _apply(fresh, summ(c.func.attr, gs, c)[1])
+        variants = [("a request that was never activated (only the request at the head of the queue is, by "
+                     "_start_new_segment)", fresh)]
+        # the head of the queue: what _start_new_segment does to its event
+        head_var = None
+        for n in sn.cfg().nodes:
+            a = n.ast
+            if n.kind == "stmt" and isinstance(a, ast.Assign) and len(a.targets) == 1 and isinstance(a.targets[0], (ast.Tuple, ast.List)) \
+                    and isinstance(a.value, ast.Subscript) and attr_path(a.value.value) == "self._segment_requests" \
+                    and len(a.targets[0].elts) > qpos and isinstance(a.targets[0].elts[qpos], ast.Name):
+                head_var = a.targets[0].elts[qpos].id
+        if head_var is not None:
+            st = fresh
+            seen_call = False
+            for n in sn.cfg().nodes:
+                if n.kind in ("entry", "exit", "raise"):
+                    continue
+                for c in calls_on(n, head_var):
+                    seen_call = True
+                    m, s_ = summ(c.func.attr, sn, c)
+                    # (the head of the queue is fresh: a request leaves the queue together with the fetcher started for it)
+                    for (own, f2, n2) in _unsafe_aborts(s_, st):
+                        r.violation(f2, f2.loc(n2.ast), "%s aborts (%s) for the state the event of a newly queued request is in, and "
+                                    "_start_new_segment calls `%s` between installing the new SegmentFetcher and waking it with "
+                                    "add_shares(): the fetcher never runs, _active_segment stays occupied and every read on this "
+                                    "node waits for ever" % (short(f2), src(f2, n2.ast), src(sn, c)))
+                    st = _apply(st, s_)
+            if seen_call:
+                r.site(sn, None, "activates the head of the queue")
+                variants.append(("the request _start_new_segment activated", st))
+        # position of the event in what _extract_requests hands to the loops
+        retire_comp = [x for (x, _c) in _queue_filters(er)
+                       if not any(assign_value(n, "self._segment_requests") is x for n in er.cfg().find(stores("self._segment_requests")))]
+        if len(retire_comp) != 1:
+            raise AnchorVanished("_extract_requests no longer builds the list of retired requests with one comprehension")
+        comp = retire_comp[0]
+        g = comp.generators[0]
+
+        def qfield(e):
+            if isinstance(e, ast.Name) and isinstance(g.target, (ast.Tuple, ast.List)):
+                for i, t in enumerate(g.target.elts):
+                    if isinstance(t, ast.Name) and t.id == e.id:
+                        return i
+            if isinstance(e, ast.Subscript) and isinstance(e.value, ast.Name) and isinstance(g.target, ast.Name) \
+                    and e.value.id == g.target.id and isinstance(e.slice, ast.Constant) and isinstance(e.slice.value, int):
+                return e.slice.value
+            return None
+        if isinstance(comp.elt, ast.Name) and isinstance(g.target, ast.Name) and comp.elt.id == g.target.id:
+            lpos = qpos
+        elif isinstance(comp.elt, (ast.Tuple, ast.List)) and qpos in [qfield(e) for e in comp.elt.elts]:
+            lpos = [qfield(e) for e in comp.elt.elts].index(qpos)
+        else:
+            raise AnalysisError("cannot tell which field of what _extract_requests returns is the status event: %s" % src(er, comp))
+
+        for fn in (ff, deliver_fn):
+            cfg = fn.cfg()
+            heads = [n for n in cfg.nodes if n.kind == "iter" and contains_call(n.ast.iter, "_extract_requests")]
+            if not heads:
+                raise AnchorVanished("%s no longer iterates over _extract_requests(..)" % short(fn))
+            for h in heads:
+                t = h.ast.target
+                if not (isinstance(t, (ast.Tuple, ast.List)) and len(t.elts) > lpos and isinstance(t.elts[lpos], ast.Name)):
+                    raise AnalysisError("the delivery loop of %s does not unpack the retired request: %s" % (short(fn), src(fn, t)))
+                var = t.elts[lpos].id
+                r.site(fn, h.ast, "delivery loop, status event `%s`" % var)
+                problems = {}
+                for (who, est0) in variants:
+
+                    def step(n, st, record=None, _var=var):
+                        for c in calls_on(n, _var):
+                            m, s = summ(c.func.attr, fn, c)
+                            if record is not None:
+                                for (own, f2, n2) in _unsafe_aborts(s, st):
+                                    record(c, m, own, f2, n2)
+                            st = _apply(st, s)
+                        return st
+
+                    def transfer(n, lab, nxt, st, _h=h):
+                        if n is _h or lab == "exc" or n.kind in ("exit", "raise"):
+                            return None
+                        return step(n, st)
+                    for (d, l) in cfg.succ[h.id]:
+                        if l != "iter":
+                            continue
+                        visited, parent = explore(cfg, est0, transfer, start=cfg.nodes[d])
+                        r.count(len(visited))
+                        for (nid, st) in sorted(visited, key=lambda x: (x[0], sorted(map(str, x[1])))):
+                            n = cfg.nodes[nid]
+                            if n is h or n.kind in ("entry", "exit", "raise"):
+                                continue
+
+                            def record(c, m, own, f2, n2, _nid=nid, _st=st, _who=who):
+                                problems.setdefault((id(c), f2.qual, n2.id),
+                                                    (c, m, own, f2, n2, _who, witness(cfg, parent, (_nid, _st))))
+                            step(n, st, record)
+                for (c, m, own, f2, n2, who, w) in problems.values():
+                    own = [g_ for g_ in own if not (g_[0] == "false" and ("is", "None", g_[1]) in own)
+                           and not (g_[:2] == ("is not", "None") and ("truth", g_[2], None) in own)]
+                    why = " and ".join(sorted(_fact_text(g_) for g_ in own)) or "unconditionally"
+                    r.violation(f2, f2.loc(n2.ast), "%s aborts (%s) when %s, and the delivery loop of %s calls `%s` for every "
+                                "request it took off _segment_requests - also for %s, for which nothing in the loop body has "
+                                "made that false: the exception ends the loop, the requests not yet reached are in nobody's "
+                                "queue any more so their Deferreds never fire, and _start_new_segment() is skipped"
+                                % (short(f2), src(f2, n2.ast), why, short(fn), src(fn, c), who), w)
+
+    # -- 9. the finder retires a request whatever is left of its bookkeeping ----
+    # _request_retired runs once per DYHB query, possibly long after the overdue timer of that query fired (overdue()
+    # deletes the timer entry) or after stop() emptied the timer table.  An exception before the request has left
+    # pending_requests turns the answer into an error and leaves the request pending for ever: loop() then never
+    # reaches no_more_shares.
+    with ctx.rule("C46.9", "R1/E3", "ShareFinder._request_retired cannot raise before the request has left "
+                  "pending_requests: a keyed access (x[req], del x[req], x.pop(req), x.remove(req), x.get(req).attr) to a table "
+                  "from which another method removes entries, or into which send_request does not always enter the request, is "
+                  "behind `req in x` / a None test / a handler that catches the error", expected=2) as r:
+        fcls = idx.cls(FINDER)
+        rr_ = idx.func(FINDER + "._request_retired")
+        sr = idx.func(FINDER + ".send_request")
+        p0 = first_positional_params(rr_)[0]
+        toks = [a[0].id for a in (_effective(x)[1] for x in registrations(sr) if attr_path(_effective(x)[0]) == "self._request_retired")
+                if a and isinstance(a[0], ast.Name)]
+        tok = toks[0] if toks else None
+        REMOVERS = {"pop", "popitem", "clear", "discard", "remove", "difference_update", "intersection_update",
+                    "symmetric_difference_update"}
+        present_cache = {}
+
+        def present(cont):
+            """send_request always enters the token in `cont`, and only _request_retired takes entries out of it."""
+            if cont in present_cache:
+                return present_cache[cont]
+
+            def enters(n):
+                for e in node_exprs(n):
+                    for x in own_nodes(e):
+                        if isinstance(x, ast.Subscript) and isinstance(x.ctx, ast.Store) and attr_path(x.value) == cont \
+                                and isinstance(x.slice, ast.Name) and x.slice.id == tok:
+                            return True
+                        if isinstance(x, ast.Call) and call_name(x) in (cont + ".add", cont + ".append") and x.args \
+                                and isinstance(x.args[0], ast.Name) and x.args[0].id == tok:
+                            return True
+                return False
+            ok = tok is not None and bool(sr.cfg().find(enters)) and not _unexcused(sr, enters)[0]
+            if ok:
+                for m in fcls.methods.values():
+                    fns = [m] + list(m.nested.values())
+                    for f in fns:
+                        if f is rr_:
+                            continue
+                        for x in func_own_nodes(f):
+                            if isinstance(x, ast.Subscript) and isinstance(x.ctx, ast.Del) and attr_path(x.value) == cont:
+                                ok = False
+                            if isinstance(x, ast.Call) and isinstance(x.func, ast.Attribute) and x.func.attr in REMOVERS \
+                                    and attr_path(x.func.value) == cont:
+                                ok = False
+                            if isinstance(x, (ast.Attribute,)) and isinstance(x.ctx, ast.Store) and attr_path(x) == cont \
+                                    and f.name != "__init__":
+                                ok = False
+            present_cache[cont] = ok
+            return ok
+        cfg = rr_.cfg()
+        fx9 = FlowNorm(rr_)
+        rd9 = C.reaching_defs(cfg)
+
+        def is_key(e):
+            return isinstance(e, ast.Name) and e.id == p0
+
+        def maybe_none(v):
+            """x.get(req) / x.get(req, None) / x.pop(req, None) on a table that may have lost the entry -> the table."""
+            if not (isinstance(v, ast.Call) and isinstance(v.func, ast.Attribute) and not v.keywords and v.args and is_key(v.args[0])):
+                return None
+            cont = attr_path(v.func.value)
+            if not cont or not cont.startswith("self.") or present(cont):
+                return None
+            if v.func.attr == "get" and (len(v.args) == 1 or (len(v.args) == 2 and _is_none(v.args[1]))):
+                return cont
+            if v.func.attr == "pop" and len(v.args) == 2 and _is_none(v.args[1]):
+                return cont
+            return None
+
+        def hazards(n, guards):
+            """[(exception name, expression)] the node can raise for a request whose entry is gone."""
+            out = []
+            aug = n.ast.target if n.kind == "stmt" and isinstance(n.ast, ast.AugAssign) else None
+            for e in node_exprs(n):
+                for x in own_nodes(e):
+                    if isinstance(x, ast.Subscript) and is_key(x.slice) and (isinstance(x.ctx, (ast.Load, ast.Del)) or x is aug):
+                        cont = attr_path(x.value)
+                        if cont and cont.startswith("self.") and not present(cont) and "in:" + cont not in guards:
+                            out.append(("KeyError", x))
+                    elif isinstance(x, ast.Call) and isinstance(x.func, ast.Attribute) and x.func.attr in ("pop", "remove") \
+                            and len(x.args) == 1 and not x.keywords and is_key(x.args[0]):
+                        cont = attr_path(x.func.value)
+                        if cont and cont.startswith("self.") and not present(cont) and "in:" + cont not in guards:
+                            out.append(("KeyError", x))
+                    elif isinstance(x, ast.Attribute) and isinstance(x.ctx, ast.Load):
+                        v = x.value
+                        names = set()
+                        if isinstance(v, ast.Name):
+                            names.add(v.id)
+                            try:
+                                names.add(fx9.norm(n, v))
+                            except Exception:
+                                pass
+                            v = _value_of(cfg, rd9, n, v)
+                        cont = maybe_none(v)
+                        if cont is None:
+                            continue
+                        try:
+                            names.add(fx9.norm(n, v))
+                        except Exception:
+                            pass
+                        if "in:" + cont in guards or any("nn:" + s in guards for s in names):
+                            continue
+                        out.append(("AttributeError", x))
+            return out
+
+        def after(n, guards):
+            gone = set()
+            for e in node_exprs(n):
+                for x in own_nodes(e):
+                    if isinstance(x, ast.Subscript) and isinstance(x.ctx, ast.Del) and is_key(x.slice):
+                        gone.add("in:" + (attr_path(x.value) or "?"))
+                    if isinstance(x, ast.Call) and isinstance(x.func, ast.Attribute) and x.func.attr in REMOVERS:
+                        gone.add("in:" + (attr_path(x.func.value) or "?"))
+            gone |= {"nn:" + s for s in node_stores(n)}
+            return frozenset(g_ for g_ in guards if g_ not in gone)
+
+        retires = lambda n: any(
+            call_name(c) in ("self.pending_requests.discard", "self.pending_requests.remove") and c.args
+            and is_key(c.args[0]) for c in node_calls(n))
+        if not cfg.find(retires):
+            raise AnchorVanished("_request_retired no longer takes the request out of pending_requests")
+
+        def catches(h, name):
+            return C._default_exc_match(name, h.ast.type) is True
+
+        def transfer(n, lab, nxt, st):
+            guards, flying = st
+            if n.kind in ("entry", "exit", "raise"):
+                return st
+            if lab == "exc":
+                if flying:
+                    # the tail of a `finally` copy hands the exception on
+                    return st if all(l == "exc" for (_d, l) in cfg.succ[n.id]) else None
+                hz = hazards(n, guards)
+                if is_raise(n):
+                    if not any(g_.startswith("gone:") for g_ in guards):
+                        return None
+                    names = [C._exc_name(n.ast.exc)]
+                elif hz:
+                    names = sorted({h_[0] for h_ in hz})
+                else:
+                    return None
+                for name in names:
+                    hs = [cfg.nodes[d] for (d, l) in cfg.succ[n.id] if l == "exc" and cfg.nodes[d].kind == "except"]
+                    hit = [h for h in hs if catches(h, name)]
+                    if hit:
+                        if nxt is hit[0]:
+                            return (guards, False)
+                    elif nxt.kind != "except":
+                        return (guards, True)
+                return None
+            if hazards(n, guards) and not any(l == "exc" for (_d, l) in cfg.succ[n.id]):
+                return None          # raises out of the function: reported from the visited state
+            if retires(n):
+                return None          # the request has left pending_requests
+            if isinstance(lab, tuple) and (nxt.kind in ("raise", "except")):
+                # a failing assert / precondition
+                f = fx9.edge_fact(n, lab)
+                if f and f[0] == "not in" and f[1] == p0 and f[2] and f[2].startswith("self.") and not present(f[2]):
+                    return (guards, nxt.kind == "raise")
+                return None
+            guards = after(n, guards)
+            f = fx9.edge_fact(n, lab)
+            if f:
+                if f[0] == "in" and f[1] == p0:
+                    guards = guards | {"in:" + f[2]}
+                elif f[0] == "not in" and f[1] == p0 and f[2] and f[2].startswith("self.") and not present(f[2]):
+                    guards = guards | {"gone:" + f[2]}
+                else:
+                    got = f[1] if f[0] == "truth" else (f[2] if f[0] in ("is not", "!=") and f[1] == "None" else None)
+                    if got:
+                        guards = guards | {"nn:" + got}
+                        m = re.match(r"^(self\.[\w.]+)\.get\(%s(, None)?\)$" % re.escape(p0), got)
+                        if m:        # the table handed the entry out: it is there
+                            guards = guards | {"in:" + m.group(1)}
+            return (guards, flying)
+        visited, parent = explore(cfg, (frozenset(), False), transfer)
+        r.count(len(visited))
+        r.site(rr_, None, "retires whatever is left of the bookkeeping")
+        r.site(sr, None, "tables the request is always entered in: %s" % ", ".join(sorted(
+            c_ for c_ in {attr_path(x.value) for x in func_own_nodes(rr_) if isinstance(x, ast.Subscript)}
+            | {attr_path(x.func.value) for x in func_own_nodes(rr_) if isinstance(x, ast.Call) and isinstance(x.func, ast.Attribute)}
+            if c_ and c_.startswith("self.") and present(c_)) or "-"))
+        reported = set()
+        for (nid, st) in sorted(visited, key=lambda x: (x[0], sorted(x[1][0]), x[1][1])):
+            n = cfg.nodes[nid]
+            if n.kind in ("entry", "exit"):
+                continue
+            if n.kind == "raise":
+                p = parent.get((nid, st))
+                culprit = cfg.nodes[p[0][0]] if p else n
+                key = ("raise", culprit.id)
+                what = None
+            elif not st[1] and hazards(n, st[0]) and not any(l == "exc" for (_d, l) in cfg.succ[n.id]):
+                culprit, key = n, ("hazard", n.id)
+                what = hazards(n, st[0])[0]
+            else:
+                continue
+            if key in reported:
+                continue
+            reported.add(key)
+            w = witness(cfg, parent, (nid, st))
+            if what is not None:
+                msg = "`%s` raises %s for a request whose entry is already gone" % (src(rr_, what[1]), what[0])
+            else:
+                msg = "an exception (via `%s`) leaves the function" % src(rr_, culprit.ast)
+            r.violation(rr_, rr_.loc(culprit.ast), "_request_retired(%s): %s (overdue() deletes the timer of a slow request, stop() "
+                        "empties the table) before `%s` has left pending_requests: the late answer turns into an error, the "
+                        "request stays pending for ever, loop() never finds pending_requests empty and never announces "
+                        "no_more_shares - the read hangs (path: %s)" % (p0, msg, p0, w.brief()), w)
 
 
 # -- wake-up discipline (clause (d) of the design; the rules live in C03) --------------------------------
